@@ -88,6 +88,41 @@ func (tr *fnTrans) calleeMods(cc *ssa.CallCommon) ([]string, bool) {
 	return tr.specMods(sp), false
 }
 
+// keyedMods evaluates the `Comp@obj` entries of a modifies clause: component -> object keys.  A component
+// that also has an unkeyed entry is not returned (it may change everywhere).
+func (tr *fnTrans) keyedMods(sp *FuncSpec, ev *evalCtx) map[string][]string {
+	out := map[string][]string{}
+	whole := map[string]bool{}
+	for _, m := range sp.Modifies {
+		i := strings.Index(m, "@")
+		if i < 0 {
+			if !strings.HasPrefix(m, "rec_") {
+				if cn, err := tr.compForModifies(m); err == nil {
+					whole[cn] = true
+				}
+			}
+			continue
+		}
+		cn, err := tr.compForModifies(m[:i])
+		if err != nil {
+			panic(evalErr{fmt.Sprintf("%s: %v", sp.Where, err)})
+		}
+		ke, err := ParseExpr(m[i+1:])
+		if err != nil {
+			panic(evalErr{fmt.Sprintf("%s: %v", sp.Where, err)})
+		}
+		kt, err := ev.Eval(ke)
+		if err != nil {
+			panic(evalErr{fmt.Sprintf("%s: modifies key: %v", sp.Where, err)})
+		}
+		out[cn] = append(out[cn], kt.S)
+	}
+	for cn := range whole {
+		delete(out, cn)
+	}
+	return out
+}
+
 // specMods lists the components a contract allows its function to modify: the modifies clause
 // (rec_<name> stands for every call-record ghost of <name>) plus the function's own call record.
 func (tr *fnTrans) specMods(sp *FuncSpec) []string {
@@ -114,6 +149,9 @@ func (tr *fnTrans) specMods(sp *FuncSpec) []string {
 		}
 	}
 	for _, m := range sp.Modifies {
+		if i := strings.Index(m, "@"); i >= 0 {
+			m = m[:i]
+		}
 		if strings.HasPrefix(m, "rec_") {
 			addRec(m[4:])
 			continue
@@ -381,9 +419,21 @@ func (tr *fnTrans) applySpec(sp *FuncSpec, name string, args []Term, sig *types.
 		if name := sp.Flags["record"]; name != "" {
 			own = "G:rec_" + name + "_"
 		}
+		keyed := tr.keyedMods(sp, ev)
 		for _, cn := range tr.specMods(sp) {
 			if own != "" && strings.HasPrefix(cn, own) {
 				continue // maintained exactly by recordCall below
+			}
+			if keys, ok := keyed[cn]; ok {
+				// only the listed objects may change
+				s := tr.compSort[cn]
+				_, vs := arraySorts(s)
+				cur := tr.get(tr.cur, cn, s)
+				for _, k := range keys {
+					cur = app("store", cur, k, tr.c.freshConst(cn+"!at", vs))
+				}
+				tr.set(tr.cur, cn, s, cur)
+				continue
 			}
 			tr.havoc(tr.cur, cn)
 		}
@@ -687,7 +737,12 @@ func (tr *fnTrans) doReturn(x *ssa.Return) {
 	// frame: components not listed in modifies are unchanged on previously allocated objects
 	if !tr.spec.ModAll && tr.spec.Flags["noframe"] == "" {
 		allowed := map[string]bool{"$clock": true}
+		ev0 := &evalCtx{tr: tr, env: tr.params, cur: tr.entry, old: tr.entry}
+		keyedSelf := tr.keyedMods(tr.spec, ev0)
 		for _, cn := range tr.specMods(tr.spec) {
+			if _, ok := keyedSelf[cn]; ok {
+				continue
+			}
 			allowed[cn] = true
 		}
 		for _, comp := range tr.allComps() {
@@ -701,7 +756,11 @@ func (tr *fnTrans) doReturn(x *ssa.Return) {
 			}
 			var goal string
 			if strings.HasPrefix(tr.compSort[comp], "(Array Ref ") {
-				goal = fmt.Sprintf("(forall ((qv!x Ref)) (=> (< (allocT qv!x) %s) (= (select %s qv!x) (select %s qv!x))))", tr.clock(tr.entry), cur, old)
+				excl := "true"
+				for _, k := range keyedSelf[comp] {
+					excl = and(excl, not(app("=", "qv!x", k)))
+				}
+				goal = fmt.Sprintf("(forall ((qv!x Ref)) (=> (and (< (allocT qv!x) %s) %s) (= (select %s qv!x) (select %s qv!x))))", tr.clock(tr.entry), excl, cur, old)
 			} else {
 				goal = app("=", cur, old)
 			}
@@ -902,11 +961,48 @@ func (tr *fnTrans) recSort(ghost string) Sort {
 			continue
 		}
 		rest := strings.TrimPrefix(ghost, "rec_"+name+"_")
+		var idx int
+		if sp.Kind == "iface" {
+			// key: pkg.Iface.Method
+			i := strings.LastIndex(sp.Key, ".")
+			if i < 0 {
+				return ""
+			}
+			it := tr.eng.LookupGoType(sp.Key[:i], tr.c.home)
+			if it == nil {
+				return ""
+			}
+			iface, ok := it.Underlying().(*types.Interface)
+			if !ok {
+				return ""
+			}
+			for m := 0; m < iface.NumMethods(); m++ {
+				if iface.Method(m).Name() != sp.Key[i+1:] {
+					continue
+				}
+				sig := iface.Method(m).Type().(*types.Signature)
+				switch {
+				case strings.HasPrefix(rest, "arg"):
+					fmt.Sscanf(rest, "arg%d", &idx)
+					if idx == 0 {
+						return "(Array Int " + tr.c.sortOf(it) + ")"
+					}
+					if idx-1 < sig.Params().Len() {
+						return "(Array Int " + tr.c.sortOf(sig.Params().At(idx-1).Type()) + ")"
+					}
+				case strings.HasPrefix(rest, "res"):
+					fmt.Sscanf(rest, "res%d", &idx)
+					if idx < sig.Results().Len() {
+						return "(Array Int " + tr.c.sortOf(sig.Results().At(idx).Type()) + ")"
+					}
+				}
+			}
+			return ""
+		}
 		fn := tr.eng.LookupFunc(sp.Key)
 		if fn == nil {
 			return ""
 		}
-		var idx int
 		switch {
 		case strings.HasPrefix(rest, "arg"):
 			fmt.Sscanf(rest, "arg%d", &idx)
